@@ -243,7 +243,7 @@ func (g *gen) genOp(k string) Op {
 		if !ok {
 			return g.genOp("save")
 		}
-		return Op{K: "resave", Lid: lid}
+		return Op{K: "resave", Lid: lid, Flag: r.Chance(1, 3)}
 	case "del":
 		lid, ok := g.pickLive()
 		if !ok || r.Chance(1, 8) {
